@@ -1,6 +1,7 @@
 import CE.Cbe.Encode
 import CE.Cbe.Decode
 import CE.Canon
+import CE.Conv.Int
 import CE.Arr.LE
 import CE.Tree
 import CE.Io.Reader
@@ -240,8 +241,31 @@ def arrFromLE (args : List String) : String :=
     | _, _ => "BADINPUT"
   | _ => "BADINPUT"
 
+/-- CONV ev dst(s|u) width: integer event form into a w-bit signed/unsigned destination -/
+def convOp (args : List String) : String :=
+  match args with
+  | [ev, dst, w] =>
+    match Ev.parseList ev, w.toNat? with
+    | some [e], some w =>
+      let r : Option (Option Int) := match e, dst with
+        | .posInt n, "s" => some (Conv.setIntFromUint w n)
+        | .posInt n, "u" => some (Conv.setUintFromUint w n)
+        | .negInt n, "s" => some (if n = 0 then none else if n ≤ 2 ^ 63 - 1 then Conv.setIntFromInt w (-(n : Int)) else Conv.setIntFromBigInt w (-(n : Int)))
+        | .negInt n, "u" => some (if n = 0 then none else if n ≤ 2 ^ 63 - 1 then Conv.setUintFromInt w (-(n : Int)) else Conv.setUintFromBigInt w (-(n : Int)))
+        | .int i, "s" => some (Conv.setIntFromInt w i)
+        | .int i, "u" => some (Conv.setUintFromInt w i)
+        | .bigInt (some i), "s" => some (Conv.setIntFromBigInt w i)
+        | .bigInt (some i), "u" => some (Conv.setUintFromBigInt w i)
+        | _, _ => none
+      match r with
+      | none => "UNMODELLED"
+      | some none => "ERR"
+      | some (some x) => s!"OK {x}"
+    | _, _ => "BADINPUT"
+  | _ => "BADINPUT"
+
 def ops : List (String × (List String → String)) :=
-  [("CBE.ENC", cbeEnc), ("CBE.DEC", cbeDec), ("CANON.EQ", canonEq), ("RULES", rulesOp), ("WF.REL", wfRel), ("FWD.EQ", fwdEq), ("MEASURE", measureOp), ("CBE.MINLEN", minLenOp), ("API.DETECT", apiDetect), ("API.VERSION", apiVersion), ("READER.ALL", readerAll), ("READER.FAULT", readerFault), ("TREE.EQ", treeEq), ("ARR.TOLE", arrToLE), ("ARR.FROMLE", arrFromLE)]
+  [("CBE.ENC", cbeEnc), ("CBE.DEC", cbeDec), ("CANON.EQ", canonEq), ("RULES", rulesOp), ("WF.REL", wfRel), ("FWD.EQ", fwdEq), ("MEASURE", measureOp), ("CBE.MINLEN", minLenOp), ("API.DETECT", apiDetect), ("API.VERSION", apiVersion), ("READER.ALL", readerAll), ("READER.FAULT", readerFault), ("TREE.EQ", treeEq), ("ARR.TOLE", arrToLE), ("ARR.FROMLE", arrFromLE), ("CONV", convOp)]
 
 def splitArrow : List String → List String × String
   | [] => ([], "")
